@@ -437,4 +437,3 @@ func ruleInactiveAfterJump(c *Ctx) {
 	}
 	c.Floor("places that set the stage to inactive", n, 3)
 }
-
